@@ -62,7 +62,7 @@ package common
 //@   requires a != nil && n != nil && val(n) != 0
 //@   ensures reported: ok <==> gcd(val(a), val(n)) == 1
 //@   ensures none: !ok ==> ia == nil
-//@   ensures inverse: ok ==> ia != nil && fresh(ia) && (val(a) * val(ia) - 1) % val(n) == 0
+//@   ensures inverse: ok ==> ia != nil && fresh(ia) && rem(prod(val(a), val(ia)) - 1, val(n)) == 0
 //@   ensures positive: ok && val(n) > 1 && val(a) != 0 ==> val(ia) >= 1 && val(ia) <= 2 * val(n)
 //@   modifies nothing
 //@   mustfail canary: !ok
